@@ -1131,9 +1131,13 @@ func Retract(vm *VM, t Term, k Cont, env *Env) *Promise {
 	ks := make([]func(context.Context) *Promise, len(u.clauses))
 	for i, c := range u.clauses {
 		c := c
-		raw := rulify(c.raw, env)
 		ks[i] = func(_ context.Context) *Promise {
-			return Unify(vm, t, raw, func(env *Env) *Promise {
+			// The caller sees a variant of the stored term, as with clause/2: the variables of the stored term itself are never bound.
+			raw, err := renamedCopy(c.raw, nil, env)
+			if err != nil {
+				return Error(err)
+			}
+			return Unify(vm, t, rulify(raw, env), func(env *Env) *Promise {
 				// The database may have changed since the call: find the clause itself, not its old position.
 				for j := range u.clauses {
 					if !sameClause(&u.clauses[j], &c) {
